@@ -330,7 +330,10 @@ def decode_real(doc: dict, xml: str, user: list, mode: str, conv: str, lx: bool 
     if user:
         kw['namespaces'] = dict(user)
     data, errors = L.schema().decode(res, **kw)
-    trace = {'calls': L.TRACE['calls'], 'elems': dict(L.TRACE['elems']), 'attrs': dict(L.TRACE['attrs']),
+    def norm(k):            # GData writes prefixed names with '$'
+        return k if conv != 'gdata' or k[:1] == '{' else k.replace('$', ':')
+    trace = {'calls': L.TRACE['calls'], 'elems': {i: [norm(k) for k in v] for i, v in L.TRACE['elems'].items()},
+             'attrs': {i: [norm(k) for k in v] for i, v in L.TRACE['attrs'].items()},
              'init': L.TRACE['init'],
              'xmlns': {ids[id(e)]: [list(x) for x in (res.get_xmlns(e) or [])] for e in res.root.iter()}}
     return data, errors, trace
@@ -422,7 +425,7 @@ def node_walk(ctx: Ctx, case: dict, doc: dict, conv: str, data: Any, trace: dict
                 if g != L.qn(*a):
                     fails.append({'phase': 'decode', 'kind': 'attribute', 'node': n['id'], 'path': path, 'key': k,
                                   'denotes': g, 'expected': a, 'reported_default': rd, 'reported': sorted(s.items())})
-        ckeys = trace['elems'].get(n['id'], [])
+        ckeys = trace['elems'].get(n['id'], []) if conv != 'dataelement' else [k for k, _ in ch]
         if len(ckeys) != len(n['ch']) or len(ch) != len(ckeys):
             fails.append({'phase': 'decode', 'kind': 'shape', 'node': n['id'], 'path': path,
                           'emitted': ckeys, 'in_data': [k for k, _ in ch]})
@@ -500,12 +503,25 @@ def eval_trace(ctx: Ctx, case: dict, doc: dict, mode: str, trace: dict) -> None:
     denote the expanded name of its node"""
     user = dict(case.get('user') or [])
     final = dict(map(tuple, trace['calls'][-1]['ns'])) if trace['calls'] else {}
+    # namespaces in force right after the first / last set_xmlns_context call of each element (stacked mode: the
+    # data reports nothing, generated prefixes of a colliding user map are known to the mapper only)
+    enter: dict = {}
+    leave: dict = {}
+    for c in trace['calls']:
+        enter.setdefault(c['obj'], dict(map(tuple, c['ns'])))
+        leave[c['obj']] = dict(map(tuple, c['ns']))
+
+    def agree(doc_scope: dict, mapper_ns: dict) -> bool:
+        # every binding of the document's own scope is a binding of the mapper's map (xmlns="" aside)
+        return all(mapper_ns.get(p) == u for p, u in doc_scope.items() if u or p)
 
     def walk(n: dict, scope: dict):
         s = dict(scope)
         for p, u in n['decl']:
             s[p] = u
-        rs = s if mode == 'stacked' else final
+        if mode == 'stacked' and n['id'] in leave and not agree(s, leave[n['id']]):
+            yield {'phase': 'decode', 'kind': 'scope', 'node': n['id'], 'document_scope': s, 'mapper': leave[n['id']], 'path': ''}
+        rs = leave.get(n['id'], s) if mode == 'stacked' else final
         akeys = trace['attrs'].get(n['id'], [])
         if len(akeys) == len(n['attrs']):
             for a, k in zip(n['attrs'], akeys):
@@ -522,7 +538,7 @@ def eval_trace(ctx: Ctx, case: dict, doc: dict, mode: str, trace: dict) -> None:
                 cs = dict(s)
                 for p, u in c['decl']:
                     cs[p] = u
-                crs = cs if mode == 'stacked' else final
+                crs = enter.get(c['id'], cs) if mode == 'stacked' else final
                 try:
                     g = L.resolve(k, crs, False)
                 except L.Unresolved:
@@ -556,7 +572,8 @@ def eval_doc(ctx: Ctx, case: dict, doc: dict, conv: str, mode: str, data: Any, e
         ctx.failure('valid generated document reported invalid while decoding', case,
                     {'errors': [str(e.reason) for e in errors[:3]]})
         return None
-    if view is None:
+    if view is None or (conv == 'gdata' and any(n['tag'][0] == L.WILD for n in L.doc_nodes(doc))):
+        # GData stores an xs:anyType child without a list (a second one overrides it): lossy, judged at trace level
         eval_trace(ctx, case, doc, mode, trace)
         return None
     # --- decode: data read with the declarations it reports -----------------------------------
@@ -580,6 +597,11 @@ def eval_doc(ctx: Ctx, case: dict, doc: dict, conv: str, mode: str, data: Any, e
     # --- encode: restores the names the data denotes ----------------------------------------------
     if conv not in ENCODABLE:
         ctx.count('encode not driven for this converter')
+        return None
+    wild_elems = any(n['tag'][0] == L.WILD for n in L.doc_nodes(doc))
+    if conv == 'badgerfish' and wild_elems:
+        # xs:anyType children are stored without a list: single-child dicts are taken for wrappers when encoding
+        ctx.count('encode not evaluable (badgerfish, wildcard-matched elements: wrapper ambiguity)')
         return None
     counter, objids, tab = [0], {}, []
     enc_item = build_item(conv, view, k, item, counter, objids, tab)
@@ -619,6 +641,11 @@ def eval_doc(ctx: Ctx, case: dict, doc: dict, conv: str, mode: str, data: Any, e
     enc = L.canon_elem(elem)
     if enc == got:
         ctx.count('encode ok')
+        if wild_elems:
+            # XsdAnyElement.raw_encode probes the item with element_encode(value, xsd_element) at level 0 before the
+            # real call (wildcards.py:606): an extra set_xmlns_context the model of the call pattern does not have
+            ctx.count('encode run not compared (wildcard-matched elements: extra level-0 probe call)')
+            return None
         return {'item': enc_item, 'tab': tab, 'etrace': etrace, 'enc': enc}
     hits: dict = {}
     try:
@@ -629,6 +656,15 @@ def eval_doc(ctx: Ctx, case: dict, doc: dict, conv: str, mode: str, data: Any, e
         for fid, n in hits.items():
             ctx.known_hit(fid, case)
             ctx.count('known:' + fid + ' (encode)')
+        return None
+    def norm9(t):
+        # C17-F9: an unqualified attribute the element type does not declare (z anywhere, y on a wildcard-matched
+        # element) read into the default namespace; documents never contain a namespaced z / y
+        und = ('z', 'y') if t[0].split('}')[-1] == 'w' else ('z',)
+        return [t[0], sorted(a.split('}')[-1] if a.split('}')[-1] in und else a for a in t[1]), sorted((norm9(c) for c in t[2]), key=repr)]
+    if decode_ok and norm9(enc) == norm9(got) and hits.get('C17-F9'):
+        ctx.known_hit('C17-F9', case)
+        ctx.count('known:C17-F9 (encode)')
         return None
     if not decode_ok:
         # names were already wrong in the data (listed decode finding); the encoder cannot restore them
@@ -646,7 +682,7 @@ def eval_doc(ctx: Ctx, case: dict, doc: dict, conv: str, mode: str, data: Any, e
     return None
 
 
-def compare_doc(ctx: Ctx, case: dict, doc: dict, trace: dict, m: dict) -> None:
+def compare_doc(ctx: Ctx, case: dict, doc: dict, trace: dict, m: dict, data: Any = None) -> None:
     ctx.traces += 1
     if 'err' in m:
         ctx.mismatch('driver error', case, None, m)
@@ -654,6 +690,7 @@ def compare_doc(ctx: Ctx, case: dict, doc: dict, trace: dict, m: dict) -> None:
     if m.get('fuel'):
         ctx.count('model fuel exhausted')
         return
+    conv = case['converter']
     obs = {o['id']: o for o in m['obs']}
     mc = model_calls(doc, obs)
     rc = trace['calls']
@@ -671,15 +708,75 @@ def compare_doc(ctx: Ctx, case: dict, doc: dict, trace: dict, m: dict) -> None:
             return
     if rc and rc[-1]['stack'] != m['final']['stack']:
         ctx.mismatch('final context stack', case, rc[-1]['stack'], m['final']['stack'])
+    akey = 'attrsR' if ARULE == 'repaired' else 'attrs'
+    has_attr_trace = conv not in ('parker', 'columnar')     # these do not call map_attributes
     for n in L.doc_nodes(doc):
         o = obs[n['id']]
-        if trace['attrs'].get(n['id'], []) != o['attrs']:
-            ctx.mismatch('mapped attribute keys', case, trace['attrs'].get(n['id'], []), o['attrs'])
+        if has_attr_trace and trace['attrs'].get(n['id'], []) != o[akey]:
+            ctx.mismatch('mapped attribute keys', case, trace['attrs'].get(n['id'], []), o[akey])
             return
         want = [obs[c['id']]['key'] for c in n['ch']]
         if trace['elems'].get(n['id'], []) != want:
             ctx.mismatch('mapped child keys', case, trace['elems'].get(n['id'], []), want)
             return
+    # the data tree itself (converters that report xmlns entries)
+    base, view, proot, prune = converters()[conv]
+    if prune is not None and data is not None and view is not None and \
+            not (conv == 'gdata' and any(n['tag'][0] == L.WILD for n in L.doc_nodes(doc))):
+        ctx.traces += 1
+        ctx.count('data tree compared')
+        k, item = root_item(conv, data)
+        real = canon_item_real(conv, view, k, item)
+        model = canon_item_model(m['item'])
+        if real != model:
+            ctx.mismatch('decoded data tree (keys, reported xmlns, attribute keys, pruning)', case, real, model)
+
+
+def compare_enc(ctx: Ctx, case: dict, tie: dict, m: dict) -> None:
+    """encode: set_xmlns_context calls of the real element_encode run and names of the produced XML tree"""
+    ctx.traces += 1
+    ctx.count('encode run compared')
+    if 'err' in m:
+        ctx.mismatch('driver error (enc)', case, None, m)
+        return
+    obs = m['obs']
+    mcalls = [o for o in obs if _is_map_id(tie['item'], o['id'])]
+    rcalls = tie['etrace']['calls']
+    if [(c['obj'], c['level']) for c in rcalls] != [(o['id'], o['level']) for o in mcalls]:
+        ctx.mismatch('encode: order of set_xmlns_context calls', case,
+                     [(c['obj'], c['level']) for c in rcalls], [(o['id'], o['level']) for o in mcalls])
+        return
+    for i, (a, b) in enumerate(zip(rcalls, mcalls)):
+        for f in ('ns', 'rev'):
+            if a[f] != b[f]:
+                ctx.mismatch(f'encode: set_xmlns_context call #{i}: {f}', case, a[f], b[f])
+                return
+    model = canon_from_obs(obs)
+    if model != tie['enc']:
+        ctx.mismatch('encode: expanded names of the produced tree', case, tie['enc'], model)
+
+
+def order_like_real(item: dict, calls: list) -> None:
+    """The validators hand the children of an element to the converter in the order of the content model, not of
+    the data (groups.py raw_encode): the model is driven with the children in the order of the real run."""
+    first: dict = {}
+    for i, c in enumerate(calls):
+        first.setdefault(c['obj'], i)
+
+    def sub_first(it):
+        return min([first.get(it['id'], 10 ** 9)] + [sub_first(c) for c in it['ch']])
+
+    def rec(it):
+        it['ch'].sort(key=sub_first)
+        for c in it['ch']:
+            rec(c)
+    rec(item)
+
+
+def _is_map_id(item: dict, iid: int) -> bool:
+    if item['id'] == iid:
+        return item['map']
+    return any(_is_map_id(c, iid) for c in item['ch'])
 
 
 DIRECTED = [
@@ -721,46 +818,104 @@ def documents(ctx: Ctx, drv: Optional[Driver], variant: str) -> None:
     convs = list(converters())
     reqs: list = []
     pend: list = []
+    ereqs: list = []
+    epend: list = []
     docs: list = []
+    try:
+        import lxml.etree  # noqa
+        have_lxml = True
+    except Exception:  # noqa
+        have_lxml = False
+    ctx.extra['lxml'] = have_lxml
     for x in DIRECTED:
         d = parse_doc(x)
         docs.append((d, x, 'directed'))
     for i in range(n_docs):
-        d = L.gen_doc(rng, max_depth=rng.choice([2, 3, 4, 5, 6]), max_nodes=rng.choice([6, 10, 14, 20]))
-        docs.append((d, L.doc_xml(d), 'generated'))
+        wild = 0.35 if rng.random() < 0.4 else 0.0
+        d = L.gen_doc(rng, max_depth=rng.choice([2, 3, 4, 5, 6]), max_nodes=rng.choice([6, 10, 14, 20]), wild=wild)
+        docs.append((d, L.doc_xml(d), 'wild' if wild else 'generated'))
     for i, (doc, xml, origin) in enumerate(docs):
         L.assign_ids(doc)
         nt = nontrivial_doc(doc)
-        plain = {k: v for k, v in L.driver_tree(doc).items()}
         for mode in MODES:
             users = [[]] if origin == 'directed' else [gen_user(rng)]
             if origin == 'directed':
                 users.append([['', 'u1']])
             for user in users:
-                conv_list = convs if (origin == 'directed' or not ctx.quick()) else [convs[(i + MODES.index(mode)) % len(convs)]]
+                if origin == 'directed':
+                    conv_list = convs
+                elif ctx.quick():
+                    conv_list = [convs[(i + MODES.index(mode)) % len(convs)]]
+                else:
+                    conv_list = [convs[(i + MODES.index(mode) + j) % len(convs)] for j in range(4)]
                 for conv in conv_list:
-                    case = {'xml': xml, 'doc': plain, 'user': user, 'mode': mode, 'converter': conv}
-                    try:
-                        data, errors, trace = decode_real(doc, xml, user, mode, conv)
-                    except Exception as e:  # noqa
-                        ctx.failure('decode raised', case, {'exception': repr(e)[:300]})
-                        continue
-                    # parsing glue: declarations as the resource reports them vs the generator's intent
-                    for n in L.doc_nodes(doc):
-                        if trace['xmlns'].get(n['id'], []) != n['decl']:
-                            ctx.mismatch('xmlns declarations reported by the resource', case,
-                                         trace['xmlns'].get(n['id']), n['decl'])
-                            break
-                    ctx.case(case, nt, tag=f'{mode}/{conv}')
-                    ctx.count('user map:' + ('none' if not user else 'default' if any(p == '' for p, _ in user) else 'prefixed'))
-                    eval_doc(ctx, case, doc, conv, mode, data, errors, trace)
-                    if drv is not None:
-                        reqs.append({'op': 'doc', 'variant': variant, 'mode': mode, 'user': user, 'tree': plain})
-                        pend.append((case, doc, trace))
+                    lx = have_lxml and (origin == 'directed' or rng.random() < 0.25)
+                    for use_lx in ([False, True] if (lx and origin == 'directed') else [lx]):
+                        one_document(ctx, drv, variant, doc, xml, origin, nt, mode, user, conv, use_lx,
+                                     reqs, pend, ereqs, epend)
         ctx.count(f'doc nodes:{min(len(list(L.doc_nodes(doc))) // 5 * 5, 20)}+')
     if drv is not None and reqs:
-        for (case, doc, trace), m in zip(pend, drv.query(reqs)):
-            compare_doc(ctx, case, doc, trace, m)
+        for (case, doc, trace, data), m in zip(pend, drv.query(reqs)):
+            compare_doc(ctx, case, doc, trace, m, data)
+    if drv is not None and ereqs:
+        for (case, tie), m in zip(epend, drv.query(ereqs)):
+            compare_enc(ctx, case, tie, m)
+
+
+def one_document(ctx: Ctx, drv: Optional[Driver], variant: str, doc: dict, xml: str, origin: str, nt: bool, mode: str,
+                 user: list, conv: str, lx: bool, reqs: list, pend: list, ereqs: list, epend: list) -> None:
+    plain = L.driver_tree(doc)
+    case = {'xml': xml, 'doc': plain, 'user': user, 'mode': mode, 'converter': conv, 'parser': 'lxml' if lx else 'etree'}
+    try:
+        data, errors, trace = decode_real(doc, xml, user, mode, conv, lx)
+    except Exception as e:  # noqa
+        if conv in ('columnar', 'abdera', 'parker') and isinstance(e, (ValueError, TypeError, KeyError)):
+            ctx.count(f'decode not evaluable ({conv}: {type(e).__name__})')
+            return
+        ctx.failure('decode raised', case, {'exception': repr(e)[:300]})
+        return
+    # parsing glue: declarations as the resource reports them vs the generator's intent
+    mdoc = doc
+    differs = any(trace['xmlns'].get(n['id'], []) != n['decl'] for n in L.doc_nodes(doc))
+    if differs and lx:
+        # lxml reports the declarations of an element from its nsmap: own order, and a redundant redeclaration
+        # (same prefix, same URI as in the parent) is not reported at all: the model is driven with what the
+        # resource reports (the reported declarations must still yield the document's in-scope bindings)
+        import copy
+        ctx.count('lxml: reported declarations differ from the attribute text (order / redundant redeclarations)')
+        mdoc = copy.deepcopy(doc)
+        for n in L.doc_nodes(mdoc):
+            n['decl'] = trace['xmlns'].get(n['id'], [])
+
+        def same_scopes(a, b, sa, sb):
+            sa, sb = dict(sa), dict(sb)
+            sa.update(map(tuple, a['decl']))
+            sb.update(map(tuple, b['decl']))
+            return {k: v for k, v in sa.items() if v} == {k: v for k, v in sb.items() if v} and \
+                all(same_scopes(x, y, sa, sb) for x, y in zip(a['ch'], b['ch']))
+        if not same_scopes(doc, mdoc, {}, {}):
+            ctx.mismatch('in-scope bindings from the declarations lxml reports', case,
+                         [n['decl'] for n in L.doc_nodes(mdoc)], [n['decl'] for n in L.doc_nodes(doc)])
+        plain = L.driver_tree(mdoc)
+        case = dict(case, doc=plain)
+    elif differs:
+        ctx.mismatch('xmlns declarations reported by the resource', case,
+                     [trace['xmlns'].get(n['id']) for n in L.doc_nodes(doc)], [n['decl'] for n in L.doc_nodes(doc)])
+    ctx.case(case, nt, tag=f'{mode}/{conv}')
+    ctx.count('parser:' + case['parser'])
+    ctx.count('origin:' + origin)
+    ctx.count('user map:' + ('none' if not user else 'default' if any(p == '' for p, _ in user) else 'prefixed'))
+    tie = eval_doc(ctx, case, mdoc, conv, mode, data, errors, trace)
+    if drv is not None:
+        prune = converters()[conv][3]
+        reqs.append({'op': 'doc', 'variant': variant, 'mode': mode, 'user': user, 'tree': plain,
+                     'prune': bool(prune), 'arule': ARULE})
+        pend.append((case, mdoc, trace, data if not errors else None))
+        if tie is not None:
+            order_like_real(tie['item'], tie['etrace']['calls'])
+            ereqs.append({'op': 'enc', 'variant': variant, 'mode': mode, 'item': tie['item'], 'tab': tie['tab'],
+                          'ns': tie['etrace']['init']['ns'], 'rev': tie['etrace']['init']['rev']})
+            epend.append((case, tie))
 
 
 # ------------------------------------------------------------------------------------------------
@@ -803,8 +958,10 @@ def gen_script(rng) -> dict:
             ops.append({'k': 'set', 'p': rng.choice(pool_p), 'u': rng.choice(L.URIS)})
         elif r < 0.62:
             ops.append({'k': 'del', 'p': rng.choice(pool_p)})
-        elif r < 0.82:
+        elif r < 0.76:
             ops.append({'k': 'map', 'q': [rng.choice(pool_u + ['uX']), rng.choice(L.LOCALS)]})
+        elif r < 0.82:
+            ops.append({'k': 'mapattr', 'q': [rng.choice(pool_u + ['uX']), rng.choice(L.LOCALS)], 'arule': ARULE})
         else:
             t = rng.choice(['loc', 'pre', 'pre', 'braced'])
             n = {'t': t, 'l': rng.choice(L.LOCALS)}
@@ -814,7 +971,10 @@ def gen_script(rng) -> dict:
                 n['u'] = rng.choice(L.URIS)
             x = [[rng.choice(pool_p[:4]), rng.choice(pool_u)]] if rng.random() < 0.3 else []
             ops.append({'k': 'unmap', 'n': n, 'xmlns': x, 'tab': rng.random() < 0.3})
-    return {'ns': [[k, v] for k, v in ns.items()], 'mode': mode, 'ops': ops}
+    c = rng.random()
+    cfg = {'process': True, 'strip': False} if c < 0.85 else {'process': False, 'strip': False} if c < 0.93 else \
+        {'process': True, 'strip': True}
+    return {'ns': [[k, v] for k, v in ns.items()], 'mode': mode, 'ops': ops, 'cfg': cfg}
 
 
 def eval_script(ctx: Ctx, case: dict, real: dict) -> None:
@@ -869,11 +1029,11 @@ def scripts(ctx: Ctx, drv: Optional[Driver], variant: str) -> None:
     n = ctx.pick(5000, 60000)
     reqs, pend = [], []
     setrep = not setitem_stale()
-    fixed = [dict(F2_WITNESS, mode='stacked'), dict(F5_WITNESS, mode='none')]
+    fixed = [dict(F2_WITNESS, mode='stacked'), dict(F5_WITNESS, mode='none'), dict(F7_WITNESS, mode='none')]
     for i in range(n + len(fixed)):
         case = fixed[i] if i < len(fixed) else gen_script(rng)
         try:
-            real = run_script(case['ns'], case['mode'], case['ops'])
+            real = run_script(case['ns'], case['mode'], case['ops'], case.get('cfg'))
         except Exception as e:  # noqa
             ctx.failure('mapper operation raised', case, {'kind': 'script', 'exception': repr(e)[:300]})
             continue
@@ -882,10 +1042,13 @@ def scripts(ctx: Ctx, drv: Optional[Driver], variant: str) -> None:
         ctx.case(case, nt, tag='script/' + case['mode'])
         for o in case['ops']:
             ctx.count('op:' + o['k'])
+        cfg = case.get('cfg') or {}
+        ctx.count('cfg:' + ('strip' if cfg.get('strip') else 'noprocess' if cfg.get('process') is False else 'namespaces'))
         eval_script(ctx, case, real)
         if drv is not None:
-            ops = [dict(o, setrep=True) if (o['k'] == 'set' and setrep) else o for o in case['ops']]
-            reqs.append({'op': 'ops', 'variant': variant, 'mode': case['mode'], 'ns': case['ns'], 'ops': ops})
+            ops = [dict(o, setrep=setrep) if o['k'] == 'set' else o for o in case['ops']]
+            reqs.append({'op': 'ops', 'variant': variant, 'mode': case['mode'], 'ns': case['ns'], 'ops': ops,
+                         'process': cfg.get('process', True), 'strip': cfg.get('strip', False)})
             pend.append((case, real))
     if drv is not None:
         for (case, real), m in zip(pend, drv.query(reqs)):
@@ -939,10 +1102,19 @@ def merges(ctx: Ctx, drv: Optional[Driver]) -> None:
 
 def run(ctx: Ctx, driver_ok: bool) -> None:
     drv = Driver('drv_c17') if driver_ok else None
+    global ARULE
     variant = detect_variant()
+    ARULE = detect_attr_rule()
     ctx.extra['repointing_variant_detected'] = variant
     ctx.extra['setitem_stale'] = setitem_stale()
+    ctx.extra['attribute_rule_detected'] = ARULE
     ctx.known = ctx.known + load_local_findings()
+    if variant != 'repaired' or setitem_stale():
+        # C17-F2 / C17-F5 are fixed: a tree that shows the pre-fix behaviour is a violation
+        w = F2_WITNESS if variant != 'repaired' else F5_WITNESS
+        ctx.failure('the stale reverse-map defect fixed by b20c29d is back', dict(w, mode='stacked' if variant != 'repaired' else 'none'),
+                    {'kind': 'script', 'variant': variant, 'setitem_stale': setitem_stale()})
+    replay_counterexamples(ctx)
     documents(ctx, drv, variant)
     scripts(ctx, drv, variant)
     merges(ctx, drv)
@@ -955,9 +1127,37 @@ def run(ctx: Ctx, driver_ok: bool) -> None:
         ctx.extra['failure_inputs'] = [{'xml': f['case'].get('xml'), 'user': f['case'].get('user'), 'mode': f['case'].get('mode'),
                                         'converter': f['case'].get('converter'), 'ops': f['case'].get('ops'),
                                         'detail': json.loads(json.dumps(f['detail'], default=str))} for f in ctx.failures[:6]]
-    ctx.extra['explanation'] = ('documents: 8 directed + seeded generated, every xmlns_processing mode that keeps '
-                                'namespaces, converters default/unordered/badgerfish/jsonml; scripts: seeded operation '
-                                'sequences on a bare NamespaceMapper; merges: update_namespaces')
+    ctx.extra['explanation'] = ('documents: directed + seeded generated (40% with wildcard-matched element / attribute names), '
+                                'every xmlns_processing mode that keeps namespaces, all converters of xmlschema/converters + '
+                                'DataElementConverter, ElementTree and lxml sources; decoded data tree and element_encode runs '
+                                'compared with the model; scripts: seeded operation sequences on a converter used as a bare '
+                                'mapper (incl. process_namespaces / strip_namespaces, map_attributes); merges: update_namespaces')
+
+
+def replay_counterexamples(ctx: Ctx) -> None:
+    """the Lean `_counterexample` witnesses, replayed on the real code: they must (still) fail exactly as proved,
+    or the corresponding finding is fixed and the witness must be gone"""
+    import xmlschema
+    sch = L.schema()
+    # decoded_attrs_counterexample / roundtrip_attr_counterexample (C17-F7)
+    d = sch.decode('<a xmlns="u1" xmlns:p="u1" p:x="v"/>', validation='lax', preserve_root=True)[0]
+    ctx.extra['replayed:decoded_attrs_counterexample'] = sorted(k for k in d['a'] if not k.startswith('@xmlns'))
+    if ARULE == 'current' and '@x' not in d['a']:
+        ctx.mismatch('Lean witness decoded_attrs_counterexample does not replay', {'xml': 'F7'}, d, '@x')
+    # flat_names_counterexample (C17-F4)
+    d = sch.decode('<a xmlns="u1"><a xmlns=""><b/></a></a>', validation='lax', preserve_root=True,
+                   xmlns_processing='collapsed')[0]
+    ctx.extra['replayed:flat_names_counterexample'] = json.dumps(d)
+    if d != {'a': {'@xmlns': 'u1', 'a': [{'b': [None]}]}}:
+        ctx.mismatch('Lean witness flat_names_counterexample does not replay', {'xml': 'F4'}, d, None)
+    # unmap_map_attr_counterexample / encode_decode_names_counterexample (C17-F9)
+    d = sch.decode('<a xmlns="u1" z="v"/>', validation='lax', preserve_root=True)[0]
+    e = sch.encode(d, validation='lax', preserve_root=True, path='{u1}a')[0]
+    ctx.extra['replayed:encode_decode_names_counterexample'] = {'data': json.dumps(d), 'encoded_attrs': sorted(e.attrib)}
+    if sorted(e.attrib) == ['{u1}z']:
+        ctx.known_hit('C17-F9', {'xml': '<a xmlns="u1" z="v"/>', 'mode': 'stacked', 'converter': 'default'})
+    elif sorted(e.attrib) != ['z']:
+        ctx.mismatch('Lean witness encode_decode_names_counterexample does not replay', {'xml': 'F9'}, sorted(e.attrib), ['{u1}z'])
 
 
 def load_local_findings() -> list:
@@ -993,25 +1193,37 @@ def replay(ctx: Ctx, obj: dict) -> int:
         drv.query([{'op': 'merge', 'variant': 'pinned', 'mode': 'collapsed', 'ns': [], 'xmlns': [], 'root': True}])
     except Exception:  # noqa
         drv = None
+    global ARULE
     variant = detect_variant()
-    if 'xml' in case:
+    ARULE = detect_attr_rule()
+    ctx.known = ctx.known + load_local_findings()
+    if 'xml' in case and 'doc' in case:
         doc = case['doc']
         doc = parse_doc(case['xml']) if 'pfx' not in doc else doc
         L.assign_ids(doc)
-        data, errors, trace = decode_real(doc, case['xml'], case.get('user') or [], case['mode'], case['converter'])
+        conv = case['converter']
+        data, errors, trace = decode_real(doc, case['xml'], case.get('user') or [], case['mode'], conv,
+                                          case.get('parser') == 'lxml')
         print('REAL decoded data :', json.dumps(data, default=str))
-        eval_doc(ctx, case, doc, case['converter'], case['mode'], data, errors, trace)
+        tie = eval_doc(ctx, case, doc, conv, case['mode'], data, errors, trace)
         if drv is not None:
             m = drv.query([{'op': 'doc', 'variant': variant, 'mode': case['mode'], 'user': case.get('user') or [],
-                            'tree': L.driver_tree(doc)}])[0]
+                            'tree': L.driver_tree(doc), 'prune': bool(converters()[conv][3]), 'arule': ARULE}])[0]
             print('MODEL keys        :', [(o['id'], o['key'], o['attrs']) for o in m.get('obs', [])])
-            compare_doc(ctx, case, doc, trace, m)
+            compare_doc(ctx, case, doc, trace, m, data if not errors else None)
+            if tie is not None:
+                me = drv.query([{'op': 'enc', 'variant': variant, 'mode': case['mode'], 'item': tie['item'], 'tab': tie['tab'],
+                                 'ns': tie['etrace']['init']['ns'], 'rev': tie['etrace']['init']['rev']}])[0]
+                print('MODEL encoded     :', canon_from_obs(me.get('obs', [])))
+                compare_enc(ctx, case, tie, me)
     elif 'ops' in case:
-        real = run_script(case['ns'], case['mode'], case['ops'])
+        real = run_script(case['ns'], case['mode'], case['ops'], case.get('cfg'))
         print('REAL  :', json.dumps(real['steps']))
         eval_script(ctx, case, real)
         if drv is not None:
-            m = drv.query([{'op': 'ops', 'variant': variant, 'mode': case['mode'], 'ns': case['ns'], 'ops': case['ops']}])[0]
+            cfg = case.get('cfg') or {}
+            m = drv.query([{'op': 'ops', 'variant': variant, 'mode': case['mode'], 'ns': case['ns'], 'ops': case['ops'],
+                            'process': cfg.get('process', True), 'strip': cfg.get('strip', False)}])[0]
             print('MODEL :', json.dumps(m.get('steps')))
     for f in ctx.failures:
         print('FAILS ON THE REAL CODE:', f['what'], json.dumps(f['detail'], default=str)[:1500])
